@@ -470,6 +470,42 @@ def wrapper_stream(ctx, n_random):
                     {"kind": "violation", "stream": "wrappers", "sequence": [f"{c.__name__}({a})" for c, a, *_ in built][:200],
                      "wrapper": f"{cls.__name__}({arg})", "observed_factor": str(w.factor), "srepr_argument": sympy.srepr(arg)[:1000]})
         cases.append({"lit": f"({lit}, {olit})", "desc": f"{cls.__name__}({arg})"[:300], "obs": obs, "arg": arg})
+    # wrappers are leaves of larger expressions: two wrappers of one class over DIFFERENT arguments are different objects even when
+    # the arguments print alike, so their sum / quotient is judged like the sum / quotient of two distinct dimensioned symbols
+    # (a sum of a wrapped temperature and a wrapped period is refused, their quotient is temperature/time)
+    from symplyphysics.core.dimensions import collect_expression_and_dimension as ce  # pylint: disable=import-outside-toplevel
+    from symplyphysics.core.dimensions.miscellaneous import is_any_dimension  # pylint: disable=import-outside-toplevel
+    combos = []
+    ok = [(cls, arg, w) for cls, arg, _lit, w, _m in built if w is not None and isinstance(arg, sympy.Symbol)]
+    for (c1, a1, w1), (c2, a2, w2) in zip(ok, ok[1:]):
+        if c1 is not c2 or a1 is a2 or str(a1) != str(a2):
+            continue
+        try:
+            d1, d2 = qx.dim_lit(qx.dim_vec(a1.dimension)), qx.dim_lit(qx.dim_vec(a2.dimension))
+        except qx.Unsupported:
+            continue
+        for how, build, intended in (("+", lambda x, y: x + y, f"(SAdd [(SDimSym {d1}); (SDimSym {d2})])"),
+                                     ("/", lambda x, y: x / y, f"(SMul [(SDimSym {d1}); (SPow (SDimSym {d2}) (SNum (VQ ((-1) # 1))))])")):
+            try:
+                out, dim = ce(build(w1, w2))
+                obs = ("ok", qx.dim_vec(dim))
+                olit = f"(Ok (VSym, {qx.dim_lit(obs[1])}))"
+                anyb = "(Some true)" if is_any_dimension(out) else "(Some false)"
+            except qx.Unsupported:
+                continue
+            except Exception as e:  # pylint: disable=broad-except
+                obs = ("err", qx.err_class(e), f"{type(e).__name__}: {e}"[:160])
+                olit, anyb = f"(Err {obs[1]}%N)", "None"
+            combos.append({"lit": f"({intended}, {olit}, {anyb})", "obs": obs,
+                "desc": f"{c1.__name__}({a1}) {how} {c1.__name__}({a2})  [arguments printed alike, dimensions {a1.dimension} and {a2.dimension}]"})
+    ctx.coverage["wrapper_combinations"] = len(combos)
+    bad = coqrun.eval_cases(ctx, "wrapper_combos", PREAMBLE, [c["lit"] for c in combos],
+        "fun c : sexpr * eres * option bool => let '(e, o, b) := c in eres_eqb (infer_e e) o b", case_type="sexpr * eres * option bool") if combos else []
+    for i in bad[:10]:
+        c = combos[i]
+        ctx.violation(f"C06:wrapper-combo:{c['desc']}"[:300], f"two wrappers over different arguments are not treated as different leaves: {c['desc']} "
+            f"gives {c['obs'][1:]}", {"kind": "violation", "stream": "wrappers", "expression": c["desc"], "gallina": c["lit"], "observed": str(c["obs"]),
+            "theorem_or_tie": "correspondence CollectE.infer_e on the tree as written ~ collect_expression_and_dimension on wrappers"}, True)
     return cases
 
 
